@@ -2,7 +2,9 @@ package props
 
 import (
 	"context"
+	"encoding/hex"
 	"fmt"
+	"runtime/debug"
 	"sort"
 	"strings"
 	"testing"
@@ -229,6 +231,17 @@ func genC16(r *rt.Rand, tier string, idx int) *world.Scenario {
 	}
 	sc := &world.Scenario{Prefix: prefix, Seed: r.Uint64(), Engine: "memkv", EtcdCompat: true, Class: "etcd-api-history"}
 	sc.Extra = map[string]int64{"lockstep": 1}
+	if idx%6 == 3 {
+		// the same histories on TiKV split into several regions: range, count and stream answers are assembled
+		// from the adapter's partitions
+		sc.Class = "etcd-api-history(tikv regions)"
+		sc.Engine = "tikv"
+		sc.Extra["tikv_regions"] = 1
+		for i := 0; i < 1+r.Intn(3); i++ {
+			kk := []string{prefix + "/a", prefix + "/a/b", prefix + "/b", prefix + "/pods/ns/p1", prefix + "/pods/ns/p2"}[r.Intn(5)]
+			sc.Parts = append(sc.Parts, hex.EncodeToString(simkv.EncodeKey([]byte(kk), []uint64{0, uint64(2 + r.Intn(30))}[r.Intn(2)])))
+		}
+	}
 	if idx%6 == 2 {
 		// one transient iterator error inside a range scan: the scan is retried, the answer must still be etcd's
 		sc.Class = "etcd-api-history+scan-fault"
@@ -306,6 +319,9 @@ type c16Event struct {
 // checkC16Concurrent: what a failed guarded update/delete returns as "current key-value".
 func checkC16Concurrent(c *Ctx) {
 	const P = "C16"
+	// the success flags of concurrent conditional writes: what was acknowledged was applied once, no two
+	// requests succeed on one expected revision (the conditional-write oracle of C01, without its justification clause)
+	checkChain(c, P, false)
 	tl := buildTimeline(c.W.KV.GT)
 	n := 0
 	for _, r := range c.W.Recs {
@@ -417,6 +433,23 @@ func c16Custom(t *testing.T, sc *world.Scenario, out *Outcome) {
 		return
 	}
 	s.Go("etcd-client", -1, func() {
+		defer func() {
+			// a panic inside a handler, on the request's goroutine, ends a real node (no recovery interceptor)
+			if x := recover(); x != nil {
+				where := ""
+				for _, line := range strings.Split(string(debug.Stack()), "\n") {
+					if strings.Contains(line, "github.com/kubewharf/kubebrain/") && !strings.Contains(line, "/verifhook") && strings.Contains(line, "(") {
+						where = strings.TrimSpace(line)
+						if j := strings.LastIndex(where, "("); j > 0 {
+							where = where[:j]
+						}
+						break
+					}
+				}
+				out.violate(P, "request-panicked", "request-panicked "+where, "a request through the etcd API panicked: %v at %s", x, where)
+				finished = true
+			}
+		}()
 		for i, op := range sc.Clients[0].Ops {
 			s.YieldIdle("client.lockstep")
 			switch op.K {
